@@ -306,6 +306,12 @@ def base_grid(ctx, fixed_names):
     for r in (2, 3, 4) + ((5,) if not ctx.quick() else ()):
         ds += [D('SwapGate', r), D('CSUMGate', r)]
     ds += [D('HGate'), D('ShiftGate'), D('ClockGate'), D('SwapGate'), D('CSUMGate'), D('PDGate', 1)]
+    # grid points beyond the vm_compute table GateLib.grid_gates: the families proved for EVERY
+    # radix / size (C18_contract_{Shift,Clock,PD,ArbitraryCPhase,Diagonal,MPRZ,PauliZ}_all) are tied
+    # to the classes at larger constructor arguments too
+    ds += [D('ShiftGate', 6), D('ShiftGate', 7), D('ClockGate', 6), D('ClockGate', 7), D('PDGate', 2, 6),
+           D('PDGate', 5, 7), D('PauliZGate', 4), D('DiagonalGate', 4), D('MPRZGate', 4, 1),
+           D('ArbitraryCPhaseGate', [4, 4])]
     ds += [D('SubSwapGate', 2, '0,1;1,0'), D('SubSwapGate', 3, '0,1;1,0'), D('SubSwapGate', 3, '0,2;2,1'),
            D('SubSwapGate', 4, '1,1;2,2'), D('SubSwapGate', 3, '1,1;1,1')]
     ds += [D('IdentityGate'), D('IdentityGate', 2), D('IdentityGate', 1, [3]), D('IdentityGate', 2, [2, 3]),
